@@ -1,9 +1,11 @@
 """Program-level correspondence shared by C02, C05–C09: run a program (AST from vlib/progen.py) through the library
 (parse + run, captured output, variable dump) and through the Lean interpreter; compare outcome, output, variables."""
+import json
+import os
 import re
 
 from . import progen
-from .core import Case, Check, outcomes_agree
+from .core import Case, Check, outcomes_agree, VERIF
 from .run import hx
 from .props.c04 import parse_dump
 
@@ -15,6 +17,38 @@ def strip_flags(v):
 class ProgCheck(Check):
     fuel = 200000
     mode = "prog"       # harness op used to run the source: prog | step | capi
+
+    def __init__(self, tier, seed):
+        Check.__init__(self, tier, seed)
+        # findings of the interpreter-deepening round live in their own file until merged into known_findings.json
+        p = os.path.join(VERIF, "known_findings_int.json")
+        if os.path.exists(p):
+            have = {f["id"] for f in self.findings}
+            self.findings += [f for f in json.load(open(p))["findings"] if f["property"] == self.pid and f["id"] not in have]
+
+    def spec_checks(self, c, out_hex, outcome, m):
+        """Property-level expectations a generated program carries in its meta (the model follows the CODE, so a defect of
+        the code is an agreement of model and implementation that contradicts the expectation):
+        meta["same"] = [(tag1, tag2, finding id)]: the printed lines `tag1:<payload>` and `tag2:<payload>` must carry the same payload."""
+        same = c.meta.get("same")
+        if not same or out_hex is None:
+            return
+        lines = bytes.fromhex(out_hex).decode("latin-1").split("\n")
+        for t1, t2, fid in same:
+            l1 = next((x[len(t1) + 1:] for x in lines if x.startswith(t1 + ":")), None)
+            l2 = next((x[len(t2) + 1:] for x in lines if x.startswith(t2 + ":")), None)
+            if l1 is None or l2 is None:
+                continue
+            self.stats["spec_pairs"] = self.stats.get("spec_pairs", 0) + 1
+            if l1 == l2:
+                continue
+            entry = next((f for f in self.findings if f["id"] == fid and f.get("status", "known") == "known"), None)
+            if entry is None:
+                return self.record_violation("implementation and model agree but contradict the property: line %s:%s vs %s:%s (defect region %s is not a listed known finding)"
+                                             % (t1, l1, t2, l2, fid), c, outcome, m)
+            self.stats["spec_pairs_differ"] = self.stats.get("spec_pairs_differ", 0) + 1
+            self.known_hits.setdefault(fid, {"what": entry["what"], "example": c.meta.get("src", "")[:200].replace("\n", " "),
+                                             "impl": "%s:%s / %s:%s" % (t1, l1, t2, l2)})
 
     def prog_case(self, cid, prog, meta=None, pre_ops=(), post_ops=()):
         src = progen.program_src(prog)
@@ -106,6 +140,7 @@ class ProgCheck(Check):
             m2["spec"] = None
             return self.record_violation("printed output differs from the model: impl %r model %r" % (
                 bytes.fromhex(out or "").decode("latin-1")[:300], bytes.fromhex(mo).decode("latin-1")[:300]), c, outcome, m2)
+        self.spec_checks(c, out, outcome, m2)
         if dump is not None and mvars:
             for ent in mvars.split(";"):
                 name, _, val = ent.partition(":")
